@@ -305,7 +305,7 @@ where
             dealloc(get_tls_ptr().cast(), Layout::new::<ThreadLocalStorage>());
         }
     };
-    let (start_fn, fn_caller) = unsafe { onwed_split_fn_once(df) };
+    let (start_fn, fn_caller, drop_fn_caller) = unsafe { onwed_split_fn_once(df) };
     // We need to double box here because
     // 1. We need to access through a box, because we can't cast into a *mut dyn FnOnce(), because
     // fat pointer.
@@ -345,7 +345,7 @@ where
         (*tls).self_addr = tls as usize;
     }
     #[expect(clippy::cast_possible_truncation)]
-    unsafe {
+    let clone_res = unsafe {
         __clone(
             start_fn,
             stack,
@@ -355,7 +355,22 @@ where
             tsm.get_futex().as_ptr() as usize,
             map_ptr,
             stack_sz,
-        );
+        )
+    };
+    if clone_res < 0 {
+        // No thread was created, nobody will ever run the closure or clear the exit futex:
+        // undo everything and report the failure instead of handing out a handle that
+        // can never be joined.
+        unsafe {
+            let _ = rusl::unistd::munmap(map_ptr, NonZeroUsize::new_unchecked(size));
+            drop(Box::from_raw(tls));
+            drop_fn_caller(fn_caller);
+            tsm.dealloc();
+        }
+        return Err(crate::error::Error::os(
+            "Failed to clone a new thread",
+            rusl::error::Errno::new(-clone_res),
+        ));
     }
     Ok(JoinHandle {
         tsm,
@@ -363,11 +378,17 @@ where
     })
 }
 
+/// Returns the thread start function, the boxed closure it'll be called with,
+/// and a function dropping that box in case the thread is never started.
 #[inline]
-unsafe fn onwed_split_fn_once<F: FnOnce()>(f: F) -> (usize, usize) {
+unsafe fn onwed_split_fn_once<F: FnOnce()>(f: F) -> (usize, usize, unsafe fn(usize)) {
     let t = start_fn::<F>;
     let d = Box::into_raw(Box::new(f));
-    (t as usize, d as usize)
+    (t as usize, d as usize, drop_boxed_fn::<F>)
+}
+
+unsafe fn drop_boxed_fn<F: FnOnce()>(ptr: usize) {
+    drop(Box::from_raw(ptr as *mut F));
 }
 
 #[repr(C)]
